@@ -19,6 +19,10 @@ func runC02(c *Ctx) {
 	}
 	c.Cases(n, func(idx int64, r *Rng) {
 		bc := genBattle(r, 4, r.Chance(1, 3))
+		if idx == 0 {
+			// pinned witness of a repaired defect (known_findings.txt): entry point wraps past the last address
+			bc = &BattleCase{M: 10, P: 2, C: 30, R: 10, W: 10, Warriors: []*BWarrior{{Code: []mars.Insn{tDat.Code[0], tImp.Code[0]}, Start: 1, Off: 9}, {Code: []mars.Insn{tImp.Code[0]}, Off: 4}}}
+		}
 		nw := len(bc.Warriors)
 		rec := &popRecorder{}
 		var s g.ReportingSimulator
